@@ -11,8 +11,10 @@ package db
 
 import (
 	"bytes"
+	"context"
 
 	"github.com/sourcenetwork/defradb/client"
+	"github.com/sourcenetwork/defradb/internal/datastore"
 	"github.com/sourcenetwork/defradb/internal/keys"
 )
 
@@ -208,4 +210,80 @@ func VerifH_C05_IndexFaults() {
 	if f.injected > 0 {
 		vAssert(err != nil, "fault-propagates")
 	}
+}
+
+// ---- index maintenance after merged remote commits ----
+
+// patched call sites in syncIndexedDoc (props/C07.py SYNC_PATCHES): the two reads of the document — before the merge
+// (committed state) and after it (inside the merge transaction) — are answered by the harness
+var verifSyncGet func(col *collection, ctx context.Context, docID client.DocID, showDeleted bool) (*client.Document, error)
+
+// VerifH_C07_SyncAfterMerge — the real syncIndexedDoc (with indexNewDoc / deleteIndexedDoc / updateDocIndex and the real
+// index kinds) for a document that before the merge was absent (or deleted) or present, and after the merge is absent
+// (deleted) or present with any value: it never fails or panics, and afterwards the index holds exactly the entry of
+// the document's current value if it is live. conf: unique (0/1)
+func VerifH_C07_SyncAfterMerge() {
+	unique := vConfInt("unique") != 0
+	e := vNewEnv(vFieldCounter, true)
+	def := mSchema(1)
+	col := &collection{db: &DB{}, def: def}
+	desc := client.IndexDescription{Name: "idx", ID: 1, Unique: unique, Fields: []client.IndexedFieldDescription{{Name: "f0", Descending: vChoose("desc", 2) == 1}}}
+	index, err := NewCollectionIndex(col, desc)
+	vBound(err == nil, "index-created")
+	if err != nil {
+		return
+	}
+	col.indexes = []CollectionIndex{index}
+	hadBefore, hasAfter := vBool("present-before-the-merge"), vBool("live-after-the-merge")
+	var oldDoc, newDoc *client.Document
+	var newVals []uVal
+	if hadBefore {
+		oldDoc = mDoc(def, 0, mVals("old", 1))
+		vBound(index.Save(e.ctx, oldDoc) == nil, "setup-old-entry")
+	}
+	if hasAfter {
+		newVals = mVals("new", 1)
+		newDoc = mDoc(def, 0, newVals)
+	}
+	verifSyncGet = func(c *collection, ctx context.Context, docID client.DocID, showDeleted bool) (*client.Document, error) {
+		_, inTxn := datastore.CtxTryGetTxn(ctx)
+		d := oldDoc
+		if inTxn {
+			d = newDoc
+		}
+		if d == nil {
+			return nil, client.ErrDocumentNotFoundOrNotAuthorized
+		}
+		return d, nil
+	}
+	docID, derr := client.NewDocIDFromString(uDocIDs[0])
+	if derr != nil {
+		panic("doc id")
+	}
+	err = syncIndexedDoc(e.ctx, docID, col)
+	verifSyncGet = nil
+	vCover("synced")
+	vAssert(err == nil, "index-sync-after-a-merge-does-not-fail")
+	if err != nil {
+		return
+	}
+	prefixKey := keys.IndexDataStoreKey{CollectionShortID: 1, IndexID: 1}
+	prefix := prefixKey.Bytes()
+	have := 0
+	for _, ent := range e.txn.data.ents {
+		if bytes.HasPrefix(ent.k, prefix) {
+			have++
+		}
+	}
+	if !hasAfter {
+		vAssert(have == 0, "no-entry-for-a-document-that-is-not-live")
+		return
+	}
+	fields := []keys.IndexedField{{Value: newVals[0].normal(), Descending: desc.Fields[0].Descending}}
+	if !unique || newVals[0].null {
+		fields = append(fields, keys.IndexedField{Value: client.NewNormalString(uDocIDs[0])})
+	}
+	wantKey := keys.NewIndexDataStoreKey(1, 1, fields)
+	_, ok := e.txn.data.peek(wantKey.Bytes())
+	vAssert(ok && have == 1, "exactly-the-entry-of-the-current-value")
 }
